@@ -382,4 +382,169 @@ theorem applyDelSegs_keys : ∀ (ks : List String) (kvs : AMap Node), (∀ k ∈
         simp only
         rw [add_of_noSuffix kvs _ hns, applyDelSegs_keys (k2 :: ks) sub (fun x hx => h x (List.mem_cons_of_mem _ hx))]
 
+theorem renderFrom_keys (p : String) (ks : List String) :
+    renderFrom p (ks.map (fun k => ((k, []) : Comp))) = ks.foldl toPath p := by
+  induction ks generalizing p with
+  | nil => rfl
+  | cons k ks ih =>
+    simp only [List.map_cons, List.foldl_cons]
+    rw [← ih (toPath p k)]
+    simp [renderFrom, extend]
+
+theorem map_strOf_keys (ks : List String) :
+    (ks.map (fun k => ((k, []) : Comp))).map (fun x => String.ofList (compStr x)) = ks := by
+  induction ks with
+  | nil => rfl
+  | cons a as ih =>
+    simp only [List.map_cons]
+    rw [ih]
+    congr 1
+    exact strOf_nil a
+
+/-- `applySingle` on a rendered top-level modification over path-safe keys is the structured action -/
+theorem applySingle_renderM {m : M} (hk : m.Keyed) (hs : m.Safe) (kvs : AMap Node) :
+    applySingle kvs (renderM "" m) = actK m kvs := by
+  cases m with
+  | a p =>
+    cases p with
+    | leaf _ => exact absurd hk (by simp [M.Keyed])
+    | idx _ _ => exact absurd hk (by simp [M.Keyed])
+    | key k p =>
+      have hpath : pathA "" (.key k p) = renderFrom "" (compsA (k, []) p) := by
+        have : toPath "" k = extend "" (k, []) := by simp [extend]
+        simp only [pathA]
+        rw [this, pathA_comps]
+      obtain ⟨c, cs, hc⟩ := List.exists_cons_of_ne_nil (compsA_ne_nil p (k, []))
+      have hsafe : ∀ x ∈ c :: cs, SafeKey x.1 := hc ▸ compsA_safe p (k, []) hs.1 hs.2
+      have h1 : applySingle kvs (renderM "" (.a (.key k p))) =
+          applyAddSegs kvs (splitPath (pathA "" (.key k p))) (valA p) := rfl
+      rw [h1, hpath, hc, splitPath_renderFrom c cs hsafe, ← hc]
+      have := applyAddSegs_comps p k [] kvs hs.1 hs.2
+      exact this
+  | d ks =>
+    cases ks with
+    | nil => exact absurd hk (by simp [M.Keyed])
+    | cons k ks =>
+      have hsafe : ∀ x ∈ ((k, []) : Comp) :: ks.map (fun k => ((k, []) : Comp)), SafeKey x.1 := by
+        intro x hx
+        rcases List.mem_cons.mp hx with rfl | hx
+        · exact hs k (List.mem_cons_self ..)
+        · obtain ⟨k', hk', rfl⟩ := List.mem_map.mp hx
+          exact hs k' (List.mem_cons_of_mem _ hk')
+      have h1 : applySingle kvs (renderM "" (.d (k :: ks))) =
+          applyDelSegs kvs (splitPath ((k :: ks).foldl toPath "")) := rfl
+      have h2 := renderFrom_keys "" (k :: ks)
+      rw [List.map_cons] at h2
+      rw [h1, ← h2, splitPath_renderFrom _ _ hsafe]
+      have h3 : (((k, []) : Comp) :: ks.map (fun k => ((k, []) : Comp))).map (fun x => String.ofList (compStr x)) = k :: ks := by
+        simp only [List.map_cons]
+        rw [map_strOf_keys]
+        congr 1
+        exact strOf_nil k
+      rw [h3, applyDelSegs_keys (k :: ks) kvs hs]
+      rfl
+
+/-! ## the sorted order is admissible -/
+
+theorem pathA_ext : ∀ (m : AP) (q : String), ∃ t, (pathA q m).toList = q.toList ++ t
+  | .leaf _, q => ⟨[], by simp [pathA]⟩
+  | .idx i m, q => by
+    obtain ⟨t, ht⟩ := pathA_ext m (toListPath q i)
+    exact ⟨idxGroup i ++ t, by simp only [pathA]; rw [ht, toListPath_toList, List.append_assoc]⟩
+  | .key k m, q => by
+    obtain ⟨t, ht⟩ := pathA_ext m (toPath q k)
+    by_cases hq : q = ""
+    · exact ⟨k.toList ++ t, by simp only [pathA]; rw [ht]; simp [toPath, hq]⟩
+    · exact ⟨'.' :: k.toList ++ t, by simp only [pathA]; rw [ht]; simp [toPath, hq, String.toList_append]⟩
+
+/-- a Delete above an Add has a path that is a strict prefix of the Add's path -/
+theorem above_prefix : ∀ (ks : List String) (p : AP) (q : String), p.Safe → Above ks p →
+    ∃ t, t ≠ [] ∧ (pathA q p).toList = (ks.foldl toPath q).toList ++ t
+  | [], .leaf _, _, _, h => absurd h (by simp [Above])
+  | [], .idx i m, q, _, _ => by
+    obtain ⟨t, ht⟩ := pathA_ext m (toListPath q i)
+    refine ⟨idxGroup i ++ t, by simp [idxGroup], ?_⟩
+    simp only [pathA, List.foldl_nil]
+    rw [ht, toListPath_toList, List.append_assoc]
+  | [], .key k m, q, hs, _ => by
+    obtain ⟨t, ht⟩ := pathA_ext m (toPath q k)
+    have hk : k.toList ≠ [] := hs.1.1
+    by_cases hq : q = ""
+    · refine ⟨k.toList ++ t, by simp [hk], ?_⟩
+      simp only [pathA, List.foldl_nil]
+      rw [ht]
+      simp [toPath, hq]
+    · refine ⟨'.' :: k.toList ++ t, by simp, ?_⟩
+      simp only [pathA, List.foldl_nil]
+      rw [ht]
+      simp [toPath, hq, String.toList_append]
+  | k :: ks, .key k' m, q, hs, h => by
+    obtain ⟨e, h'⟩ := h
+    subst e
+    exact above_prefix ks m (toPath q k) hs.2 h'
+  | _ :: _, .leaf _, _, _, h => absurd h (by simp [Above])
+  | _ :: _, .idx _ _, _, _, h => absurd h (by simp [Above])
+
+theorem ord_of_sorted {S : List M} (hs : ∀ m ∈ S, m.Safe) (h : PathSorted (S.map (renderM ""))) : Ord S := by
+  unfold PathSorted at h
+  rw [List.pairwise_map] at h
+  refine List.Pairwise.imp_of_mem ?_ h
+  intro m1 m2 h1 _ hle
+  cases m1 with
+  | d _ => simp [OrdR]
+  | a p =>
+    cases m2 with
+    | a _ => simp [OrdR]
+    | d ks =>
+      simp only [OrdR]
+      intro hab
+      obtain ⟨t, htne, ht⟩ := above_prefix ks p "" (hs _ h1) hab
+      have hlt : (renderM "" (.d ks)).path < (renderM "" (.a p)).path := by
+        show ks.foldl toPath "" < pathA "" p
+        rw [String.lt_iff, ht]
+        have : ([] : List Char) < t := by
+          cases t with
+          | nil => exact absurd rfl htne
+          | cons c t => exact List.nil_lt_cons c t
+        have := List.append_left_lt (l₁ := (ks.foldl toPath "").toList) this
+        simpa using this
+      exact (String.not_lt.mpr hle) hlt
+
+theorem foldl_congr_mem {α β : Type} {f g : β → α → β} : ∀ (S : List α) (c : β), (∀ m ∈ S, ∀ c, f c m = g c m) →
+    S.foldl f c = S.foldl g c
+  | [], _, _ => rfl
+  | m :: S, c, h => by
+    simp only [List.foldl_cons]
+    rw [h m (List.mem_cons_self ..) c]
+    exact foldl_congr_mem S _ (fun x hx => h x (List.mem_cons_of_mem _ hx))
+
+/-! ## the theorem -/
+
+/-- **apply_diff_flatten**: for compatible documents over path-safe keys, every list item of the
+    left one holding a scalar, applying the diff to the right document gives the left one's
+    flattened view. -/
+theorem apply_diff_flatten_core (L R : AMap Node) (hL : (Node.cont L).Valid) (hR : (Node.cont R).Valid)
+    (hsL : (Node.cont L).SafeKeys) (hsR : (Node.cont R).SafeKeys) (hc : Compat (.cont L) (.cont R))
+    (hi : (Node.cont L).ItemsHaveScalars) : flatten (apply R (diff L R)) = flatten L := by
+  have hemit : emit L R = (emitM (.cont L) (.cont R)).map (renderM "") := emitNode_M _ _ "" hL hR hc
+  have hperm : (diff L R).Perm ((emitM (.cont L) (.cont R)).map (renderM "")) := hemit ▸ sortMods_perm _
+  obtain ⟨S, hS, hSm⟩ := exists_perm_map (renderM "") hperm _ rfl
+  have hsafe : ∀ m ∈ S, m.Safe := fun m hm => safe_emitM _ _ hsL hsR m (hS.mem_iff.mp hm)
+  have hkeyed : ∀ m ∈ S, m.Keyed := by
+    intro m hm
+    have := hS.mem_iff.mp hm
+    simp only [emitM, List.mem_append] at this
+    rcases this with h | h
+    · exact keyed_emitLeftM _ _ m h
+    · exact keyed_emitRightM _ _ m h
+  have hord : Ord S := ord_of_sorted hsafe (by rw [hSm]; exact sortMods_sorted _)
+  have happly : apply R (diff L R) = S.foldl (fun c m => actK m c) R := by
+    rw [← hSm, apply, List.foldl_map]
+    exact foldl_congr_mem S R (fun m hm c => applySingle_renderM (hkeyed m hm) (hsafe m hm) c)
+  have := recon (.cont L) (.cont R) hL hR hi hc S hS hord ""
+  rw [foldl_act_keyed S R hkeyed] at this
+  simp only [flatO, flattenNode] at this
+  rw [happly]
+  exact this
+
 end Ytk
